@@ -25,10 +25,11 @@ def run(ctx):
     p = vh(["c15-replay", "--formats", fmts, "--algs", algs], stdin="\n".join(json.dumps(v) for v in vecs), timeout=3000)
     recs = [json.loads(l) for l in p.stdout.splitlines() if l.strip()]
     drift = 0
+    legacy_ok = 0
     for x in recs:
         for ri, o in enumerate(x["obs"]["rounds"]):
             case = {"format": x["format"], "alg": x["alg"], "vector": x["vector"], "round": ri + 1, "obs": x["obs"]}
-            tag = "round%d" % (ri + 1)
+            tag = "legacy" if x["vector"].get("legacy") else "round%d" % (ri + 1)
             if o["sign"] == "Panic":
                 ctx.violation("panic", "embeddable workflow panicked: %s" % o.get("msg"), case)
             elif o["sign"].startswith("SetupErr"):
@@ -39,6 +40,9 @@ def run(ctx):
                                   "sign_embeddable returned %d bytes for a %d-byte placeholder (%s)" % (o["signed_len"], o["placeholder_len"], tag), case)
                 elif o.get("read", {}).get("state") not in ("Valid", "Trusted"):
                     ctx.violation("patched-not-valid:%s" % tag, "patched asset does not read back Valid: %s" % o.get("read"), case)
+        if x["vector"].get("legacy"):
+            legacy_ok += x["obs"]["rounds"][0]["sign"] == "Ok"
+            continue
         last = x["obs"]["rounds"][-1]["sign"] if x["obs"]["rounds"] else ""
         if len(x["obs"]["rounds"]) == len(x["vector"]["rounds"]) and (last == "Ok") != (x["vector"]["kind"] == "ok"):
             drift += 1
@@ -46,6 +50,9 @@ def run(ctx):
         ctx.drift_note("Embeddable", "%d vectors: fit/outgrow differs from the mirror's size arithmetic" % drift)
     ctx.cov["traces_validated_against_impl"] += len(recs)
     ctx.cov["evaluations"] = len(recs)
-    ctx.cov["distinct_nontrivial"] = sum(1 for x in recs if len(x["vector"]["rounds"]) > 1 or x["vector"]["rounds"][0]["n"] > 1)
+    if legacy_ok < 100:
+        raise ToolError("vacuity: only %d runs of the data_hashed_placeholder / sign_data_hashed_embeddable sweep signed" % legacy_ok)
+    ctx.cov["legacy_sweep_signed"] = legacy_ok
+    ctx.cov["distinct_nontrivial"] = sum(1 for x in recs if x["vector"].get("legacy") or len(x["vector"]["rounds"]) > 1 or x["vector"]["rounds"][0]["n"] > 1)
     ctx.cov["rule"] = "behaviours exported by TLC: one or two placeholder/sign rounds on the same builder, exclusion-list shapes (count x start magnitude x length magnitude) x formats %s x rotating algorithms; non-trivial = two rounds or more than the manifest's own exclusion" % fmts
     ctx.sample(recs[0]); ctx.sample(recs[-1])
